@@ -95,7 +95,12 @@ def histories(draw):
                 if len(paths) < 7:
                     paths.append(p + [n])
         elif k == 14:
-            ops.append(["set_formula_raw", p, "lambda p: {'refs': {%r: p}}" % n])
+            if draw(st.booleans()):
+                ops.append(["set_formula_raw", p, "lambda p: {'refs': {%r: p}}" % n])
+            else:
+                # the instances are built on another space: the returned reference must not clash with its members
+                q = draw(st.sampled_from(paths))
+                ops.append(["set_formula_raw", p, "lambda p: {'base': _model.%s, 'refs': {%r: p}}" % (".".join(q), n), q])
         elif k == 18:
             # automatic names (CellsN / SpaceN) meeting members that already carry such a name in the chain
             if draw(st.booleans()):
@@ -225,6 +230,7 @@ def run_case(case):
     real = Real("M", hooks=False)
     m = real.m
     nt = False
+    itembase = {}       # path of a parametrised space -> path of the space its formula names as base
     for i, op in enumerate(case["ops"]):
         k = op[0]
         if k == "probe_items":
@@ -238,7 +244,13 @@ def run_case(case):
                     it = sp(*([1] * len(sp.parameters)))
                 except Exception:
                     continue
-                f = check_space(it, m, "ItemSpace of " + ".".join(op[1]), base=sp)
+                base = sp
+                if tuple(op[1]) in itembase:
+                    try:
+                        base = real.space(itembase[tuple(op[1])])
+                    except Exception:
+                        continue        # (the chosen base is gone: the instance cannot be made any more)
+                f = check_space(it, m, "ItemSpace of " + ".".join(op[1]), base=base)
                 if f:
                     return out.fail(f[0], f[1], i)
             continue
@@ -252,7 +264,14 @@ def run_case(case):
                 kinds = names_in_chain(real, tgt, nm) if tgt else set()
                 if kinds - {want_kind}:
                     nt = True
-        res = real.apply(op)
+        if k == "set_formula_raw" and len(op) > 3:
+            res = real.apply(op[:3])
+            if res[0] == "ok":
+                itembase[tuple(op[1])] = op[3]
+        else:
+            res = real.apply(op)
+            if res[0] == "ok" and k in ("set_formula_raw", "set_formula"):
+                itembase.pop(tuple(op[1]), None)
         out.count("accepted" if res[0] == "ok" else "rejected")
         if res[0] == "ok" and k == "new_space_raw":
             try:
